@@ -121,7 +121,7 @@ type tableRow struct {
 	name   string
 	atom   atomFn
 	atomP  func(p *px.Path, s *px.Sym) (bool, bool) // alternative to atom when the path is needed
-	expect string                                     // expected outcome label
+	expect string                                   // expected outcome label
 }
 
 // checkTable: for each row exactly the feasible paths' outcomes must all equal
